@@ -10,7 +10,6 @@ import itertools, os, sys
 sys.path.insert(0, os.path.join(os.path.dirname(os.path.abspath(__file__)), "..", "lib"))
 import vf
 
-KEY_ZONE = "ip6_addr_zone_truncation"
 EINVAL, ENOSPC, E2BIG, EAFNOSUPPORT = -22, -28, -7, -97
 
 
@@ -177,7 +176,7 @@ def ntop6_cases(rng, thorough):
                 else:
                     ws.append(0)
             out.add(b"".join(w.to_bytes(2, "big") for w in ws))
-    shapes = range(65536) if thorough else [rng.randrange(65536) for _ in range(6000)]
+    shapes = range(65536) if thorough else [rng.randrange(65536) for _ in range(4000)]
     for shape in shapes:                           # zero / non-zero per byte
         for v in ([1, None] if thorough else [None]):
             out.add(bytes((v or rng.choice([1, 255, 16, rng.randrange(1, 256)])) if shape >> i & 1 else 0
@@ -312,15 +311,6 @@ def mon_strscpy(case, line):
     return None
 
 
-def is_zone_truncation(case):
-    f = case.split()
-    if f[0] != "a6":
-        return False
-    s = cstr(unhx(f[1]))
-    i = s.find(b"%")
-    return i >= 40
-
-
 def main():
     chk = vf.Check("C18")
     thorough = chk.tier == "thorough"
@@ -333,17 +323,6 @@ def main():
     except vf.BuildError as e:
         chk.violation("build failed: %s" % str(e)[:300], {"kind": "build", "log": str(e)}, found_input=False)
         chk.finish(rule="build failed")
-
-    zone_seen = []
-
-    def with_known(mon):
-        def f(case, line):
-            r = mon(case, line)
-            if r and is_zone_truncation(case):
-                zone_seen.append((case, line, r))
-                return None
-            return r
-        return f
 
     def run(name, cases, mon, shards=16):
         import time
@@ -363,6 +342,25 @@ def main():
 
     corpus_dir = os.path.join(vf.VERIF, "corpus", "C18")
 
+    if chk.replay:
+        import json
+        rp = json.load(open(chk.replay))
+        case = rp.get("case")
+        if rp.get("mode"):                      # a replay file of the UTF-8/IDNA/UTF-16 part
+            import c18_idna
+            c18_idna.replay(chk, lib)
+        elif not case:
+            print("replay file has no case (proof/build obligation): %s" % rp.get("what"))
+        else:
+            mon = {"p": mon_pton, "a": mon_pton, "n": mon_ntop, "s": mon_strscpy}[case[0]]
+            a, _, _ = vf.run_lines([h], [case])
+            b, _, _ = vf.run_lines([model], [case])
+            r = mon(case, a[0])
+            print("case  %s\nimpl  %s\nmodel %s\nmonitor %s" % (case, a[0], b[0], r or "ok"))
+            if vf.canon(split(a[0])[0]) != vf.canon(b[0]) or r:
+                chk.violation("replay still fails: %s" % (r or "implementation and model disagree"), rp)
+        chk.finish(level="proof", rule="replay of one recorded case")
+
     def corpus(fn):
         p = os.path.join(corpus_dir, fn)
         return [l.strip() for l in open(p) if l.strip() and not l.startswith("#")] if os.path.exists(p) else []
@@ -371,8 +369,8 @@ def main():
     ex_full = exhaustive([bytes([c]) for c in range(256)], 2)
     ex20 = exhaustive(A20, 5 if thorough else 4)
     ex4 = exhaustive([bytes([c]) for c in b"0125."], 8 if thorough else 7)
-    ex6 = exhaustive([bytes([c]) for c in b"01f:.%"], 8 if thorough else 7)
-    ex6b = exhaustive([bytes([c]) for c in b"1:."], 12 if thorough else 11)
+    ex6 = exhaustive([bytes([c]) for c in b"01f:.%"], 8 if thorough else 6)
+    ex6b = exhaustive([bytes([c]) for c in b"1:."], 12 if thorough else 10)
     gen = pton_cases(rng, 400000 if thorough else 40000)
     lz = long_zone_cases(rng, 20000 if thorough else 2000)
     cases = corpus("pton.txt")
@@ -392,28 +390,11 @@ def main():
         cases.append("a6 %s %d" % (hx(s), port))
     cases.append("px " + hx(b"::1"))
     cases = [c for c in cases if not (c in seen or seen.add(c))]
-    a = run("inet.c/uv-common.c text->address = Model/Inet.v", cases, with_known(mon_pton))
+    a = run("inet.c/uv-common.c text->address = Model/Inet.v", cases, mon_pton)
     acc = sum(1 for x in a if x.startswith("0 "))
     chk.cov["pton_cases"] = len(cases)
     chk.cov["pton_accepted"] = acc
     chk.sample({"case": cases[-2], "impl": a[-2]})
-
-    # the known defect, replayed deterministically on the real library
-    wit = "a6 " + hx(b"1111:2222:3333:4444:5555:6666:12.2.3.123%lo") + " 80"
-    wa, _, _ = vf.run_lines([h], [wit])
-    r = mon_pton(wit, wa[0])
-    if r:
-        zone_seen.insert(0, (wit, wa[0], r))
-    if zone_seen:
-        f = chk.match_known(KEY_ZONE)
-        if f:
-            chk.known_hit(f)
-        else:
-            c, l, r = zone_seen[0]
-            chk.violation("uv_ip6_addr with a %%zone suffix cuts the address part to 39 characters: %s" % r,
-                          {"kind": "monitor", "obligation": "uv_ip6_addr = glibc inet_pton on the part before %",
-                           "case": c, "impl": l, "key": KEY_ZONE, "others": len(zone_seen) - 1}, found_input=True)
-    chk.cov["zone_truncation_cases_seen"] = len(zone_seen)
 
     # ---- (b) address -> text, every size 0..50 ----------------------------
     n6 = ["n6 " + hx(x) for x in ntop6_cases(rng, thorough)]
@@ -430,19 +411,30 @@ def main():
     cases = ["sc " + hx(s) for s in sc]
     a = run("strscpy.c = Model/Inet.v", cases, mon_strscpy, shards=2)
 
+    # ---- (d) the UTF-8 / IDNA / UTF-16 part of C18 (checks/c18_idna.py) -------------------
+    rule2, trusted2 = "", []
+    try:
+        import c18_idna
+        rule2, trusted2 = c18_idna.RULE, list(c18_idna.TRUSTED)
+        c18_idna.run(chk, lib, thorough)
+    except Exception as e:                      # noqa: a crash of that part is a failed check, not a crash
+        import traceback
+        chk.violation("UTF-8/IDNA/UTF-16 part (checks/c18_idna.py) raised %s: %s" % (type(e).__name__, str(e)[:200]),
+                      {"kind": "harness", "traceback": traceback.format_exc()[-3000:]}, found_input=False)
+
     chk.finish(
         level="proof",
         rule="text->address: every byte string of length <= 2, every string of length <= 4 (thorough 5) over "
-             "{0-9 a f A F : . % x NUL 0x80}, every string of length <= 7 over {0 1 2 5 .} and {0 1 f : . %}, of "
-             "length <= 11 over {1 : .}, grammar-generated + mutated strings with and without %zone, through "
+             "{0-9 a f A F : . % x NUL 0x80}, every string of length <= 7 over {0 1 2 5 .}, <= 6 (thorough 8) over {0 1 f : . %}, "
+             "<= 10 (thorough 12) over {1 : .}, grammar-generated + mutated strings with and without %zone, through "
              "uv_inet_pton, uv_ip4_addr, uv_ip6_addr; address->text: all 2^8 group shapes x value classes, "
              "sampled (thorough: all 2^16) byte shapes, IPv4-embedded neighbours, random; each through uv_inet_ntop/uv_ipX_name/"
              "uv_ip_name at every size 0..50 with guard bytes; uv__strscpy at every n <= len+2.  Monitor: "
              "agreement with glibc inet_pton/inet_ntop, ENOSPC iff text+NUL > size, untouched destination on "
-             "failure, guards intact, round trip of the implementation's own output",
-        trusted=["Coq 8.16.1 kernel (coqc)", "ExtrOcamlBasic extraction + OCaml 4.13.1 + zarith glue (ocaml/zutil.ml, drv_c18.ml)",
+             "failure, guards intact, round trip of the implementation's own output.  " + rule2,
+        trusted=sorted(set(trusted2 + ["Coq 8.16.1 kernel (coqc)", "ExtrOcamlBasic extraction + OCaml 4.13.1 + zarith glue (ocaml/zutil.ml, drv_c18.ml)",
                  "harness/c18_inet.c, checks/c18.py (generators, monitors)", "glibc 2.36 inet_pton/inet_ntop as external oracle",
-                 "gcc 12"])
+                 "gcc 12"])))
 
 
 if __name__ == "__main__":
